@@ -53,15 +53,17 @@ def judge_chunk(name, trace_path, offset, timeout):
     if other or res["distinct"] is None:
         vf.log(os.popen("grep -v '^<<' %s | tail -30" % res["out"]).read())
         raise vf.ToolError("trace validation run %s failed: %s" % (name, other[:3]))
-    rejected, domain = {}, collections.Counter()
+    rejected, domain, seen = {}, collections.Counter(), set()
     with open(res["out"], errors="replace") as f:
         for line in f:
             if line.startswith('<<"TRACE-REJECTED"'):
                 m = re.match(r'<<"TRACE-REJECTED", (\d+), (".*")>>', line.strip())
                 rejected[offset + int(m.group(1))] = json.loads(json.loads(m.group(2)))
             elif line.startswith('<<"DOMAIN"'):
-                m = re.match(r'<<"DOMAIN", "(\w+)", (TRUE|FALSE), (TRUE|FALSE)>>', line.strip())
-                domain[(m.group(1), "in_domain" if m.group(2) == "TRUE" else ("rhumb_exempt" if m.group(3) == "TRUE" else "outside"))] += 1
+                m = re.match(r'<<"DOMAIN", (\d+), "(\w+)", (TRUE|FALSE), (TRUE|FALSE)>>', line.strip())
+                if int(m.group(1)) not in seen:          # TLC prints again when it reconstructs an error trace
+                    seen.add(int(m.group(1)))
+                    domain[(m.group(2), "in_domain" if m.group(3) == "TRUE" else ("rhumb_exempt" if m.group(4) == "TRUE" else "outside"))] += 1
     os.remove(res["out"])
     return res, rejected, domain
 
